@@ -475,7 +475,7 @@ fn main() {
 
     // ---- virtual time: each shard is a single-threaded runtime with a paused clock
     // (deterministic; hang decisions on the logical clock); thorough tier runs 8 shards
-    let n_virtual: u64 = a.pick(120_000, 3_200_000);
+    let n_virtual: u64 = a.pick(120_000, 1_200_000);
     let shards: u64 = a.pick(1, 8);
     std::thread::scope(|scope| {
         for shard in 0..shards {
@@ -516,7 +516,7 @@ fn main() {
 
     // ---- real worker threads: producers race each other and the consumer
     let rt = tokio::runtime::Builder::new_multi_thread().worker_threads(4).enable_time().build().unwrap();
-    let n_threads = a.pick(15_000, 300_000);
+    let n_threads = a.pick(15_000, 100_000);
     let mut rng = Rng::derive(a.seed, "C29-threads", 0);
     rt.block_on(async {
         for _ in 0..n_threads {
